@@ -70,8 +70,23 @@ def o1_cosim(ctx, joiners, relay):
         rj = med.add(SimRadio(clock, "joiner%d" % j))
         cls = RF24Mesh if j % 2 else RF24MeshNoMaster
         nj = cls(FakeSpiDev(rj), 0, Pin(rj), k)
+        if relay:
+            # the documented block_less_callback hook runs between the joiner's contact attempts - right after its direct
+            # request went unanswered by the full master: let the connected relay ask the master something at that moment
+            asked = []
+
+            def cb(_rr=rr, _rn=rnode):
+                if not asked:
+                    asked.append(1)
+                    med.running(_rr, True)
+                    try:
+                        _rn.lookup_address(ids[0])
+                    finally:
+                        med.running(_rr, False)
+            nj.block_less_callback = cb
         t0 = clock.now
         addr = call(med, rj, nj.renew_address, 2.0)
+        nj.block_less_callback = None
         ctx.check(addr is not None, "renew_address() returns an address while a master is running")
         if addr is None:
             return
@@ -86,6 +101,11 @@ def o1_cosim(ctx, joiners, relay):
             ctx.check(NS.parent(addr) == 0o1, "joined through the level-1 node because the master's own slots are exhausted")
         tab = table_items(master)
         ctx.check(s_or(*[s_and(kk == k, aa == addr) for kk, aa in tab]) if tab else False, "recorded under its ID in the master's table")
+        known = ids
+        for kk, aa in tab:
+            ctx.check(s_or(*[kk == o for o in known]), "the master's table holds leases of real node IDs only (asking never disturbs the master)")
+        for kp, ap in pre:
+            ctx.check(s_or(*[s_and(kk == kp, aa == ap) for kk, aa in tab]), "existing leases are undisturbed by a join")
         listening_ok(ctx, rj, addr, "after renew_address()")
         med.attach_node(rj, nj.update)
         nodes.append((k, rj, nj, addr))
@@ -152,8 +172,9 @@ def o2_node_steps(ctx, op, answer):
     link, outcome = per_packet_link(ctx, radio)
     state = {"looks": None}
     reply = None
+    foreign = answer == "foreign"  # somebody else's look-up answer passes through this node while it waits
     if answer != "none":
-        n = {"short": 1, "ok": 2, "long": 5}[answer]
+        n = {"short": 1, "ok": 2, "long": 5, "foreign": 2}[answer]
         reply = blist(ctx.bytes("reply", n))
     rtype = 196 if op == "lookup_address" else 198
 
@@ -170,7 +191,8 @@ def o2_node_steps(ctx, op, answer):
             if state.get("done") or state["looks"] is None:
                 return
             if bool(clock.looks - state["looks"] == at) and radio.listening():
-                radio.inject_rx(1, [0, 0, x & 0xFF, x >> 8, 3, 0, rtype, 0] + reply)
+                to = x if not foreign else (x | (3 << 6))  # a child of this level-2 node
+                radio.inject_rx(1, [0, 0, to & 0xFF, to >> 8, 3, 0, rtype, 0] + reply)
                 state["done"] = True
     clock.on_look = on_look
     state["looks"] = clock.looks
@@ -182,8 +204,8 @@ def o2_node_steps(ctx, op, answer):
     delivered = bool(pk) and pk[0]["acked"] == True  # noqa: E712
     if not delivered:
         ctx.check(res == -1, "-1 when the request could not be delivered")
-    elif not state.get("done"):
-        ctx.check(res == -1, "-1 when no answer arrives in time")
+    elif not state.get("done") or foreign:
+        ctx.check(res == -1, "-1 when no answer (addressed to this node) arrives in time")
     elif answer == "short":
         ctx.check(res == -1, "-1 for a truncated answer (never an exception)")
     else:
@@ -200,7 +222,7 @@ def jobs(tier):
     for j in ((1, 2, 3) if tier == "quick" else (1, 2, 3, 4)):
         out.append(Job("O1-co-simulation-through-relay", o1_cosim, dict(joiners=j, relay=True), cost=200 * j))
     for op in ("lookup_address", "lookup_node_id"):
-        for answer in ("none", "short", "ok", "long"):
+        for answer in ("none", "short", "ok", "long", "foreign"):
             out.append(Job("O2-lookup-step", o2_node_steps, dict(op=op, answer=answer), cost=20, shards=2))
     return out
 
